@@ -53,8 +53,9 @@ EXPECTED_PROBES = {
     'C11': ['cross_probe_tie', 'k>=3', 'tsv_in_some', 'curated_probe', 'id_gap', 'unsigned_ids',
             'k=1'],
     'C12': ['k>=3', 'unequal_channels', 'matrix_in_all', 'matrix_in_some', 'unsigned_index_table',
-            'highest_template_unused', 'single_column_probe'],
-    'C13': ['label', 'raw', 'curated', 'convert_into_source', 'temp_wh', 'preexisting_store',
+            'highest_template_unused', 'single_column_probe', 'probe_not_starting_at_x0'],
+    'C13': ['label', 'raw', 'curated', 'convert_into_source', 'convert_into_source:symlink',
+            'convert_into_source:dotdot', 'temp_wh', 'preexisting_store',
             'no_features', 'multi_probe_table', 'highest_template_unused'],
     'C14': ['pipeline', 'pipeline_k>=3', 'features', 'no_features', 'empty_cluster_id',
             'few_channels_on_probe', 'factor'],
@@ -94,6 +95,8 @@ def _probe_cfg(rng, shared, big):
     c['present']['wmi'] = c['present']['wm'] and shared['wmi']
     c['present']['similar'] = shared['similar'] if rng.random() < 0.85 else not shared['similar']
     c['geometry'] = rng.choice(['grid', 'line', 'random', 'stagger'])
+    c['x_shift'] = rng.choice([0, 0, 11, 30, 50, 200])
+    c['pos_scale'] = rng.choice([1, 1, 1, 40])
     if rng.random() < 0.4:
         c['curation'] = world.gen_curation_ops(rng, rng.randint(1, 3))
     c['raw_channels_extra'] = rng.choice([0, 0, 1, 2])
@@ -145,6 +148,7 @@ def gen(rng, prop, tier):
     d['colvec'] = [f for f in d['colvec'] if f != 'chmap']
     if rng.random() < 0.5:
         d['curation'] = world.gen_curation_ops(rng, rng.randint(1, 3))
+    d['pos_scale'] = rng.choice([1, 1, 40])
     d['extras'] = {'ks_label': rng.random() < 0.5, 'temp_wh': rng.random() < 0.4,
                    'channel_labels': rng.random() < 0.3, 'drift': rng.random() < 0.2,
                    'pre_store': False}
@@ -155,8 +159,9 @@ def gen(rng, prop, tier):
     if rng.random() < 0.6:
         cfg['knobs']['n_closest_channels'] = rng.choice([2, 3, 5, 12, 32])
     ops = [{'op': 'load'}]
-    if rng.random() < 0.25:
-        ops.append({'op': 'convert_into_source'})
+    if rng.random() < 0.3:
+        ops.append({'op': 'convert_into_source',
+                    'alias': rng.choice(['same', 'str', 'symlink', 'dotdot', 'trailing'])})
     ops.append({'op': 'convert', 'label': rng.choice(['', '', 'probe00', 'x1']),
                 'ampfactor': rng.choice([1, 1, 2.34e-6, 2.5, 0.5]), 'force': rng.random() < 0.3})
     return {'engine': NAME, 'cfg': cfg, 'ops': ops}
@@ -182,7 +187,7 @@ def simplify(plan):
         for i, c in enumerate(cfg['probes']):
             for key, simple in (('curation', []), ('colvec', []), ('unused_templates', []),
                                 ('geometry', 'line'), ('permute_map', False),
-                                ('raw_channels_extra', 0)):
+                                ('raw_channels_extra', 0), ('x_shift', 0), ('pos_scale', 1)):
                 if c.get(key) != simple:
                     p = copy.deepcopy(plan)
                     p['cfg']['probes'][i][key] = simple
@@ -484,6 +489,14 @@ def check_merge_structure(ctx, probes, out, model, offs):
               lambda: {'max': ranges[-1][1], 'n_channels_dat': total_dat})
     ctx.check(len(set(map(tuple, pos))) == len(pos), 'probes-not-kept-apart',
               lambda: {'positions': pos.tolist()[:12]})
+    ext = [(float(pos[c0[i]:c0[i + 1], 0].min()), float(pos[c0[i]:c0[i + 1], 0].max()))
+           for i in range(k)]
+    for a in range(k):
+        for b in range(a + 1, k):
+            ctx.check(ext[a][1] < ext[b][0] or ext[b][1] < ext[a][0],
+                      'probes-overlap-along-x', lambda: {'probes': [a, b], 'x_extents': ext})
+    if any(p.cfg.get('x_shift') for p in probes):
+        ctx.probe('probe_not_starting_at_x0')
     # templates
     T = ld('templates.npy')
     ctx.check(T.shape == (t0[-1], probes[0].cfg['nsw'], c0[-1]), 'merged-templates-shape',
@@ -938,14 +951,29 @@ def run_ops(plan, ctx, cfg):
             before = world.snapshot(src_dir)
             creator = ctx.real('EphysAlfCreator', EphysAlfCreator, model, owners=('C13', 'C14'))
             raised = None
+            alias = op.get('alias', 'same')
+            target = src_dir
+            if alias == 'str':
+                target = str(src_dir)
+            elif alias == 'symlink':
+                target = root / 'link_to_source'
+                if not target.exists():
+                    target.symlink_to(src_dir, target_is_directory=True)
+            elif alias == 'dotdot':
+                (root / 'other').mkdir(exist_ok=True)
+                target = root / 'other' / '..' / src_dir.name
+            elif alias == 'trailing':
+                target = str(src_dir) + '/'
             try:
-                creator.convert(src_dir)
+                creator.convert(target)
             except IOError as e:
                 raised = e
             except Exception as e:
                 raised = e
             ctx.op('convert_into_source', changes_state=False)
             ctx.probe('convert_into_source')
+            ctx.probe('convert_into_source:' + alias)
+            ctx.fault('output_is_alias_of_source:' + alias)
             if prop == 'C13':
                 ctx.check(raised is not None, 'convert-into-source-not-refused')
                 cr, de, mo = world.diff_snapshots(before, world.snapshot(src_dir))
